@@ -112,6 +112,16 @@ Definition unescaped_site (s : site) : bool :=
 (* every site is of exactly one of the three understood shapes (checked over SITES) *)
 Definition understood_site (s : site) : bool := escaped_site s || prefixed_site s || unescaped_site s.
 
+(* sites by binding-position label (labels are the hand-assigned POSITIONS of checks/c13.py) *)
+Definition pos_in (s : site) (labels : list string) : bool := existsb (String.eqb (s_pos s)) labels.
+
+(* regression witness for a repaired class: at EVERY site of the current source that serves one of the
+   labels (and there is at least one), the keyword k is emitted as a valid identifier denoting k *)
+Definition regression_ok (labels : list string) (k : name) : bool :=
+  forallb (fun s => implb (pos_in s labels)
+                          (valid_rust_ident (emit_ident s k) && name_eqb (denotes (emit_ident s k)) k)) SITES
+  && existsb (fun s => pos_in s labels) SITES.
+
 (* ---------------------------------------------------------------- finding classes *)
 
 (* Known_C13_rust_keyword: a Rust keyword (by the compiler's own table) that Incan does not reserve *)
